@@ -324,10 +324,10 @@ def measure_steps(case):
 
 def jobs(tier, seed):
     out = [{"name": "compositions", "kind": "comp"}]
-    n, shards = (2400, 8) if tier == "quick" else (48000, 16)
+    n, shards = (2400, 8) if tier == "quick" else (192000, 16)
     for i in range(shards):
         out.append({"name": f"hyp-t-{i}", "kind": "hyp-t", "seed": seed * 1000 + i, "n": n // shards})
-    out.append({"name": "hyp-p", "kind": "hyp-p", "seed": seed * 1000 + 99, "n": 400 if tier == "quick" else 4000})
+    out.append({"name": "hyp-p", "kind": "hyp-p", "seed": seed * 1000 + 99, "n": 400 if tier == "quick" else 16000})
     stride = 16
     for fi in range(len(FIXED)):
         for sh in range(4 if tier == "quick" else 16):
